@@ -9,7 +9,10 @@ Tie to the source
   ``diagnose_tree`` (Model/C01_Tree.v), and is followed by a directed search for a failing history.
 * C (lock-step correspondence): generated edit histories are executed on a real ``Part``; after EVERY
   operation the observable state and the results of sampled queries are dumped and compared inside
-  Coq with the model ``Model/C01.v`` (``history_ok``), and the invariant / query specification (result LISTS:
+  Coq with THREE models in one pass: the list-level model ``Model/C01.v`` (``history_ok``), the index-level model
+  ``Model/C01_Idx.v`` (binary search with ComparableMixin's ``<``, insert/delete/slices by index, cached quarter
+  map; ``history_ok_idx``) and the registry-level model ``Model/C01_Dict.v`` (class-keyed defaultdicts, buckets
+  created by look-ups, clean-up by the sum of bucket sizes; ``dhistory_ok``), and the invariant / query specification (result LISTS:
   every matching registered object exactly once, in time order) / quarter-duration semantics / "a failing
   call changes nothing" are evaluated directly on the real ``Part`` by an independent Python oracle.
 """
@@ -174,8 +177,11 @@ def diagnose_tree(ctx, classes):
 # A history is {"q0": int, "objs": [class id, ...], "steps": [{"op": [...], "queries": [[...], ...]}]}
 # ops:  ["add", k, s, e] | ["remove", k, "start"|"end"|"both"] | ["setq", t, q] | ["gp", t]
 #       | ["gpadd", k, "start"|"end", t]     (get_or_add_point(t).add_starting_object(o) / add_ending_object)
+#       | ["tpremove", k, "start"|"end"]     (o.start.remove_starting_object(o) / o.end.remove_ending_object(o): no clean-up)
 # queries: ["iter_all", c, a, b, sub, mode, as_tp] | ["iter_next", t, c, eq, sub] | ["iter_prev", ...]
 #       | ["first_last"] | ["get_point", t] | ["qd", a, b]
+#       | ["search", t]  (np.searchsorted(part._points, TimePoint(t)))  | ["cmp", a, b]  (the six rich comparisons of
+#         the time points at a and b)  | ["cached", s]  (int(part._quarter_map(s)): the cached interpolator)
 
 
 class Runner:
@@ -187,6 +193,11 @@ class Runner:
 
         self.S = S
         self.classes, self.cid = classes, cid
+        # the integer type the times (and quarter values) are handed over as: importers pass numpy integers
+        import numpy as np
+        tk = hist.get("tkind", "int")
+        conv = {"int": [int], "int64": [np.int64], "int32": [np.int32], "mixed": [int, np.int64, np.int32]}[tk]
+        self.T = lambda t: None if t is None else conv[t % len(conv)](t)
         self.part = S.Part("P", quarter_duration=hist["q0"])
         self.objs = []
         for c in hist["objs"]:
@@ -249,6 +260,12 @@ class Runner:
         elif k == "gp":
             if not any(op[1] in r for r in self.reg):
                 self.allowed_empty.add(op[1])
+        elif k == "tpremove":
+            j = 0 if op[2] == "start" else 1
+            t = self.reg[op[1]][j]
+            self.reg[op[1]][j] = None
+            if t is not None and not any(t in r for r in self.reg):
+                self.allowed_empty.add(t)     # TimePoint.remove_* does no clean-up: the point stays, possibly empty
         # setq: handled in step() against the implementation's observable change table (O3)
         live = {t for r in self.reg for t in r if t is not None}
         self.allowed_empty -= live
@@ -259,12 +276,12 @@ class Runner:
         if k == "add":
             kw = {}
             if op[2] is not None:
-                kw["start"] = op[2]
+                kw["start"] = self.T(op[2])
             if op[3] is not None:
-                kw["end"] = op[3]
+                kw["end"] = self.T(op[3])
             p.add(self.objs[op[1]], **kw)
         elif k == "gpadd":
-            tp = p.get_or_add_point(op[3])
+            tp = p.get_or_add_point(self.T(op[3]))
             if op[2] == "start":
                 tp.add_starting_object(self.objs[op[1]])
             else:
@@ -275,11 +292,16 @@ class Runner:
             else:
                 p.remove(self.objs[op[1]], op[2])
         elif k == "setq":
-            p.set_quarter_duration(op[1], op[2])
+            p.set_quarter_duration(self.T(op[1]), self.T(op[2]))
         elif k == "gp":
-            tp = p.get_or_add_point(op[1])
+            tp = p.get_or_add_point(self.T(op[1]))
             if tp is None or tp.t != op[1]:
                 raise AssertionError("get_or_add_point(%d) returned %r" % (op[1], tp))
+        elif k == "tpremove":
+            o = self.objs[op[1]]
+            tp = o.start if op[2] == "start" else o.end
+            if tp is not None:
+                (tp.remove_starting_object if op[2] == "start" else tp.remove_ending_object)(o)
         else:
             raise ValueError(op)
 
@@ -368,6 +390,19 @@ class Runner:
                         bad.append("object %s: %s refers to a time point (t=%s) that is not in the part" % (self.ident(o), side, ref.t))
                     elif o not in (ref.starting_objects if j == 0 else ref.ending_objects).get(type(o), {}):
                         bad.append("object %s: its %s point %s does not list it" % (self.ident(o), side, ref.t))
+        # the timeline is ordered by the rich comparison the code searches with; every point is found at its own index
+        import numpy as np
+        for i, tp in enumerate(pts):
+            if i + 1 < len(pts):
+                nx = pts[i + 1]
+                if any(not isinstance(r, (bool, np.bool_)) for r in (tp < nx, nx < tp, tp == nx)) or not (tp < nx) or (nx < tp) or (tp == nx):
+                    bad.append("points %s and %s do not compare by time: <  %r, >  %r, == %r" % (tp.t, nx.t, tp < nx, nx < tp, tp == nx))
+            try:
+                j = int(np.searchsorted(p._points, tp))
+            except Exception as e:
+                j = "%s" % type(e).__name__
+            if j != i:
+                bad.append("searchsorted finds point %s (index %d) at %r" % (tp.t, i, j))
         qt, qdv = list(p._quarter_times), list(p._quarter_durations)
         if len(qt) != len(qdv) or not qt or any(a >= b for a, b in zip(qt, qt[1:])):
             bad.append("quarter tables malformed: %r %r" % (qt, qdv))
@@ -390,7 +425,14 @@ class Runner:
             if k == "iter_all":
                 _, c, a, b, sub, mode, as_tp = q
                 cls = None if c is None else self.classes[c]
-                wrap = (lambda t: None if t is None else self.S.TimePoint(t)) if as_tp else (lambda t: t)
+                # bounds as plain integers, as free-standing TimePoints, or (2) as the part's OWN time point where
+                # there is one (`part.iter_all(cls, note.start, note.end)`: the usual call)
+                if as_tp == 2:
+                    wrap = lambda t: None if t is None else ((p.get_point(t) if t >= 0 else None) or self.S.TimePoint(self.T(t)))
+                elif as_tp:
+                    wrap = lambda t: None if t is None else self.S.TimePoint(self.T(t))
+                else:
+                    wrap = self.T
                 kw = {}
                 if a is not None:
                     kw["start"] = wrap(a)
@@ -408,7 +450,7 @@ class Runner:
             else:
                 _, t0, c, eq, sub = q
                 cls = self.classes[c]
-                tp = p.get_point(t0)
+                tp = p.get_point(self.T(t0))
                 if tp is None:
                     return ["objs", []], ["objs", []]
                 it = tp.iter_next if k == "iter_next" else tp.iter_prev
@@ -444,12 +486,12 @@ class Runner:
                 except Exception:
                     return ["rejected"], ["rejected"]
                 return ["times", None if tp is None else int(tp.t), None], ["rejected"]
-            tp = p.get_point(q[1])
+            tp = p.get_point(self.T(q[1]))
             ts = {t for r in self.reg for t in r if t is not None} | self.allowed_empty
             return ["times", None if tp is None else int(tp.t), None], ["times", q[1] if q[1] in ts else None, None]
         if k == "qd":
             _, a, b = q
-            arr = p.quarter_durations(a, b)
+            arr = p.quarter_durations(self.T(a), self.T(b))
             got = ["qd", [[int(r[0]), int(r[1])] for r in arr]]
             # expected: the change table restricted to [a, b); its values are the durations in force there
             tab = [[int(t), int(d)] for t, d in zip(p._quarter_times, p._quarter_durations)
@@ -459,15 +501,36 @@ class Runner:
                     tab = "entry at %d is %d but %d is in force" % (t, d, self.spec_qd(t))
                     break
             return got, ["qd", tab]
+        if k == "search":
+            import numpy as np
+            got = int(np.searchsorted(p._points, self.S.TimePoint(self.T(q[1]))))
+            ts = {t for r in self.reg for t in r if t is not None} | self.allowed_empty
+            return ["idx", got], ["idx", len([x for x in ts if x < q[1]])]
+        if k == "cmp":
+            _, a, b = q
+            # the real time point of the part where there is one, a free-standing TimePoint otherwise
+            A = (p.get_point(a) if a >= 0 else None) or self.S.TimePoint(a)
+            B = (p.get_point(b) if b >= 0 else None) or self.S.TimePoint(b)
+            res = [A < B, A <= B, A == B, A >= B, A > B, A != B]
+            import numpy as np
+            got = ["bools", [bool(r) if isinstance(r, (bool, np.bool_)) else repr(r) for r in res]]
+            return got, ["bools", [a < b, a <= b, a == b, a >= b, a > b, a != b]]
+        if k == "cached":
+            # the cached interpolator new points read; a Part without such a cache is asked for its map
+            qm = getattr(p, "_quarter_map", None) or p.quarter_duration_map
+            got = ["val", int(qm(self.T(q[1])))]
+            return got, ["val", self.spec_qd(q[1])]
         raise ValueError(q)
 
-    def step(self, st, probe_times):
-        """Execute one step.  Returns (observation dict, list of oracle messages)."""
+    def step(self, st, probe_times, light=False):
+        """Execute one step.  Returns (observation dict, list of oracle messages).  light: execute the operation
+        and keep the specification state only (no oracle, no dump, no queries) -- for the prefix of an enumerated
+        history, every prefix being an enumerated history of its own."""
         op = st["op"]
         bad = []
         neg = self.negative(op)
         before_tab = [(int(t), int(d)) for t, d in zip(self.part._quarter_times, self.part._quarter_durations)]
-        before = self.snapshot() if neg else None
+        before = self.snapshot() if (neg and not light) else None
         code, exc = 0, None
         try:
             self.do(op)
@@ -477,7 +540,7 @@ class Runner:
         if neg:
             if exc is None:
                 bad.append("O1: negative time accepted by %r" % (op,))
-            else:
+            elif not light:
                 # O4: an operation that fails leaves the part exactly as it was
                 after = self.snapshot()
                 if after != before:
@@ -495,10 +558,10 @@ class Runner:
                 old = list(self.qd)
                 after_tab = [(int(a), int(d)) for a, d in zip(self.part._quarter_times, self.part._quarter_durations)]
                 try:
-                    qmap = self.part.quarter_duration_map
+                    qmap = None if light else self.part.quarter_duration_map
                 except Exception:
                     qmap = None
-                for s in sorted(set(probe_times) | {t, t + 1, max(t - 1, 0)} | ({tn, tn - 1} if tn is not None else set())):
+                for s in ([] if light else sorted(set(probe_times) | {t, t + 1, max(t - 1, 0)} | ({tn, tn - 1} if tn is not None else set()))):
                     want = q if (t <= s and (tn is None or s < tn)) else self.spec_qd(s, old)
                     got = self.spec_qd(s, after_tab) if after_tab else None
                     if got != want:
@@ -506,7 +569,7 @@ class Runner:
                         break
                     try:
                         gm = int(qmap(s))
-                        gc = int(self.part._quarter_map(s))
+                        gc = int((getattr(self.part, "_quarter_map", None) or qmap)(s))
                     except Exception as e:
                         gm = gc = "%s" % type(e).__name__
                     if gm != want or gc != want:
@@ -517,6 +580,8 @@ class Runner:
                 # the specification's step function after the operation
                 ts = sorted(set(x for x, _ in old) | {t})
                 self.qd = [(x, q if (t <= x and (tn is None or x < tn)) else self.spec_qd(x, old)) for x in ts]
+        if light:
+            return None, bad
         try:
             bad += ["O1: " + m for m in self.inv()]
         except Exception as e:
@@ -548,16 +613,19 @@ class Runner:
         return obs, bad
 
 
-def run_history(hist, classes, cid, stop_on_bad=True):
-    """-> (observations, first_bad_step or None, messages, invalid).  invalid: an op is not a valid argument."""
+def run_history(hist, classes, cid, stop_on_bad=True, last_only=False):
+    """-> (observations, first_bad_step or None, messages, invalid).  invalid: an op is not a valid argument.
+    last_only: full oracle / observation for the last step only (small-scope enumeration)."""
     r = Runner(hist, classes, cid)
     probe = sorted(set(hist.get("pool", [])) | {0, 1, 2, 5, 1000})
     obs_all = []
     for i, st in enumerate(hist["steps"]):
         if not r.valid(st["op"]):
             return obs_all, None, ["step %d: %r is not a valid argument here" % (i, st["op"])], True
-        obs, bad = r.step(st, probe)
-        obs_all.append(obs)
+        light = last_only and i + 1 < len(hist["steps"])
+        obs, bad = r.step(st, probe, light=light)
+        if not light:
+            obs_all.append(obs)
         if bad and stop_on_bad:
             return obs_all, i, bad, False
     return obs_all, None, [], False
@@ -606,18 +674,29 @@ def gen_queries(rng, hist, reg, point_times, qtimes, n, allow_none_cls):
                 b = a + 1 if rng.random() < 0.5 else rng.choice(point_times)
             elif y < 0.2 and a is not None:
                 a = a - 1 if a > 0 else -1
-            qs.append(["iter_all", c, a, b, rng.random() < 0.65, rng.choice(["starting", "starting", "ending"]), rng.random() < 0.5])
+            qs.append(["iter_all", c, a, b, rng.random() < 0.65, rng.choice(["starting", "starting", "ending"]), rng.choice([0, 0, 1, 2, 2])])
         elif x < 0.75 and point_times:
             c = pick_cls(rng, hist, False)
             t0 = rng.choice([point_times[0], point_times[-1], rng.choice(point_times), rng.choice(point_times)])
             qs.append([rng.choice(["iter_next", "iter_prev"]), t0, c, rng.random() < 0.4, rng.random() < 0.65])
-        elif x < 0.83:
+        elif x < 0.80:
             qs.append(["first_last"])
-        elif x < 0.92:
+        elif x < 0.86:
             qs.append(["get_point", rng.choice(pool + [max(pool) + 1, -1] if rng.random() < 0.1 else pool + point_times + [max(pool) + 1])])
-        else:
+        elif x < 0.91:
             tt = [None] + qtimes + [t + 1 for t in qtimes]
             qs.append(["qd", rng.choice(tt), rng.choice(tt)])
+        elif x < 0.95:
+            # the binary search itself: on a point, between points, before the first, beyond the last
+            tt = point_times + [t + 1 for t in point_times] + [t - 1 for t in point_times if t > 0] + pool + [0, max(pool + point_times) + 3]
+            qs.append(["search", rng.choice(tt)])
+        elif x < 0.97:
+            tt = point_times + pool + [t + 1 for t in point_times]
+            a = rng.choice(tt)
+            qs.append(["cmp", a, a if rng.random() < 0.25 else rng.choice(tt)])
+        else:
+            tt = qtimes + [t + 1 for t in qtimes] + [max(t - 1, 0) for t in qtimes] + pool
+            qs.append(["cached", rng.choice(tt)])
     return qs
 
 
@@ -637,16 +716,23 @@ def gen_history(rng, classes, cid, nsteps=None, nq=4, shape=None):
             objs.append(rng.choice(fav))
         else:
             objs.append(rng.randrange(len(classes)))
-    pool = sorted(set([0] + rng.sample(range(1, 24), rng.randint(2, 7))))
+    if rng.random() < 0.1:
+        pool = sorted(set([0] + rng.sample(range(1, 64), rng.randint(12, 20))))   # long timelines: the binary search has depth
+        nobj = max(nobj, 10)
+        objs += [rng.randrange(len(classes)) for _ in range(nobj - len(objs))]
+    else:
+        pool = sorted(set([0] + rng.sample(range(1, 24), rng.randint(2, 7))))
     rel = sorted({cid[a] for k in objs for a in classes[k].__mro__ if a in cid})
     joins = sorted({a for k in objs for a in shape["joins"].get(k, [])})
     branches = sorted({a for k in objs for a in shape["branches"].get(k, [])})
-    hist = {"q0": rng.choice([1, 1, 2, 4, 12]), "objs": objs, "pool": pool, "ncls": len(classes), "rel_classes": rel,
+    hist = {"q0": rng.choice([1, 1, 2, 4, 12]), "tkind": rng.choice(["int"] * 7 + ["int64", "int32", "mixed"]), "objs": objs, "pool": pool, "ncls": len(classes), "rel_classes": rel,
             "joins": joins, "branches": branches, "steps": []}
     reg = [[None, None] for _ in objs]
     qtab = [(0, hist["q0"])]
     empty_pts = set()
     n = nsteps or rng.randint(5, 60)
+    if len(pool) > 10 and not nsteps:
+        n = max(n, 60)
     pending = []  # scripted follow-up operations (forced patterns)
     none_cls_budget = NONE_CLS_BUDGET
     while len(hist["steps"]) < n:
@@ -668,6 +754,8 @@ def gen_history(rng, classes, cid, nsteps=None, nq=4, shape=None):
             if op[0] == "remove" and reg[op[1]] == [None, None]:
                 continue
             if op[0] == "add" and ((op[2] is not None and reg[op[1]][0] is not None) or (op[3] is not None and reg[op[1]][1] is not None)):
+                continue
+            if op[0] == "gpadd" and reg[op[1]][0 if op[2] == "start" else 1] is not None:
                 continue
         else:
             x = rng.random()
@@ -790,7 +878,25 @@ def gen_history(rng, classes, cid, nsteps=None, nq=4, shape=None):
                     if cands:
                         k = rng.choice(cands)
                         pending.append((["gpadd", k, "start" if reg[k][0] is None else "end", t], "scripted:gpadd on the new point"))
-            elif x < 0.985:
+            elif x < 0.975 and anyreg:
+                # TimePoint.remove_*_object on the point the object refers to: no clean-up, the point may stay empty;
+                # often followed by an add at that time and a Part.remove (which then has to clean the point up)
+                live_alone = [t for t in live if alone_at(t) is not None]
+                if live_alone and rng.random() < 0.6:
+                    t = rng.choice([live_alone[0], live_alone[-1], rng.choice(live_alone)])
+                    k = alone_at(t)
+                    side = "start" if reg[k][0] == t else "end"
+                    kind = "tpremove:only object of the point"
+                else:
+                    k = rng.choice(anyreg)
+                    side = "start" if reg[k][0] is not None and (reg[k][1] is None or rng.random() < 0.5) else "end"
+                    t = reg[k][0 if side == "start" else 1]
+                    kind = "tpremove:other"
+                op = ["tpremove", k, side]
+                if rng.random() < 0.5:
+                    pending.append((["gpadd", k, side, t], "scripted:gpadd on a point emptied by TimePoint.remove_*"))
+                    pending.append((["remove", k, rng.choice(["both", side])], "scripted:remove after re-adding on an emptied point"))
+            elif x < 0.99:
                 k = rng.randrange(nobj)
                 t = rng.choice(pool)
                 op = rng.choice([["add", k, -rng.randint(1, 3), None], ["add", k, None, -1], ["gp", -rng.randint(1, 2)],
@@ -827,6 +933,12 @@ def gen_history(rng, classes, cid, nsteps=None, nq=4, shape=None):
         elif op[0] == "gp" and op[1] >= 0:
             if not any(op[1] in r for r in reg):
                 empty_pts.add(op[1])
+        elif op[0] == "tpremove":
+            j = 0 if op[2] == "start" else 1
+            t = reg[op[1]][j]
+            reg[op[1]][j] = None
+            if t is not None and not any(t in r for r in reg):
+                empty_pts.add(t)
         live2 = {t for r in reg for t in r if t is not None}
         empty_pts -= live2
         pts = sorted(live2 | empty_pts)
@@ -863,6 +975,8 @@ def cop(hist, op):
         return "OSetQ %s %s" % (cz(op[1]), cz(op[2]))
     if k == "gp":
         return "OGetOrAdd %s" % cz(op[1])
+    if k == "tpremove":
+        return "OTpRemove %s %s" % (cobj(hist, op[1]), "SStart" if op[2] == "start" else "SEnd")
     raise ValueError(op)
 
 
@@ -880,6 +994,12 @@ def cquery(q):
         return "QGetPoint %s" % cz(q[1])
     if k == "qd":
         return "QQuarterDurations %s %s" % (copt(q[1], cz), copt(q[2], cz))
+    if k == "search":
+        return "QSearch %s" % cz(q[1])
+    if k == "cmp":
+        return "QCmp %s %s" % (cz(q[1]), cz(q[2]))
+    if k == "cached":
+        return "QCachedMap %s" % cz(q[1])
     raise ValueError(q)
 
 
@@ -890,6 +1010,12 @@ def cqres(r):
         return "RTimes %s %s" % (copt(r[1], cz), copt(r[2], cz))
     if r[0] == "qd":
         return "RQd %s" % clist(["(%s, %s)" % (cz(a), cz(b)) for a, b in r[1]])
+    if r[0] == "idx":
+        return "RIdx %s" % cz(r[1])
+    if r[0] == "bools" and all(isinstance(b, bool) for b in r[1]):
+        return "RBools %s" % clist([cbool(b) for b in r[1]])
+    if r[0] == "val":
+        return "RVal %s" % cz(r[1])
     return "RTimes (Some (-99)) (Some (-99))"  # a query that raised never matches the model
 
 
@@ -921,7 +1047,13 @@ def cfinal(hist, obs_last):
                                  clist([cop(hist, s["op"]) for s in hist["steps"]]), cobs(hist, st, obs_last))
 
 
-IMPORTS = "From PV Require Import Lib.Base Gen.C01_ClassTree Model.C01."
+IMPORTS = "From PV Require Import Lib.Base Gen.C01_ClassTree Model.C01 Model.C01_Idx Model.C01_Dict."
+MODELS = ["Model/C01.vo", "Model/C01_Idx.vo", "Model/C01_Dict.vo"]
+HISTORY_OK = "(fun c => history_ok c && history_ok_idx c && dhistory_ok c)"
+FINAL_OK = "(fun c => final_ok c && final_ok_idx c && dfinal_ok c)"
+FIRST_DIFFS = [("list-level model Model/C01.v", "first_diff objs (init q0) 0 h"),
+               ("index-level model Model/C01_Idx.v", "first_diff_idx objs (init_idx q0) 0 h"),
+               ("registry-level model Model/C01_Dict.v", "dfirst_diff objs dinit 0 h")]
 
 # ----------------------------------------------------------------------------- reporting
 
@@ -978,7 +1110,7 @@ def report_oracle_failure(ctx, hist, classes, cid, i, msgs):
 # ----------------------------------------------------------------------------- small-scope enumeration
 
 
-def small_scope_ops(nobj, times, qvals):
+def small_scope_ops(nobj, times, qvals, tpremove=False):
     ops = []
     for k in range(nobj):
         for s, e in itertools.product([None] + times, [None] + times):
@@ -989,6 +1121,8 @@ def small_scope_ops(nobj, times, qvals):
             ops.append(["add", k, s, e])
         for w in ("start", "end", "both"):
             ops.append(["remove", k, w])
+        if tpremove:
+            ops += [["tpremove", k, "start"], ["tpremove", k, "end"]]
     for t in times:
         for q in qvals:
             ops.append(["setq", t, q])
@@ -997,17 +1131,19 @@ def small_scope_ops(nobj, times, qvals):
     return ops
 
 
-def enumerate_small(ctx, classes, cid, maxlen, objs, times, qvals, fixed_queries, label):
-    """All histories of length <= maxlen over the given scope: direct oracle on each, final state of each
-    compared with the model in Coq (every prefix is itself an enumerated history)."""
-    ops = small_scope_ops(len(objs), times, qvals)
-    base = {"q0": 1, "objs": objs, "pool": times, "ncls": len(classes), "rel_classes": []}
-    terms, hists = [], []
-    n_bad = 0
+_ENUM = {}   # scope of the running enumeration, inherited by the forked workers
 
-    def rec(prefix, reg):
-        nonlocal n_bad
-        for op in ops:
+
+def _enum_subtree(first):
+    """All valid histories of the current scope whose first operation is ops[first]: direct oracle on each.
+    -> (good [(ops list, Coq term)], bad [(ops list, first bad step, messages)] (at most 3), number executed)."""
+    E = _ENUM
+    ops, base, maxlen, fixed_queries, classes, cid = E["ops"], E["base"], E["maxlen"], E["fq"], E["classes"], E["cid"]
+    good, bad, n = [], [], 0
+
+    def rec(prefix, reg, cands):
+        nonlocal n
+        for op in cands:
             # validity on the specification state (no double registration)
             k = op[0]
             reg2 = reg
@@ -1025,30 +1161,82 @@ def enumerate_small(ctx, classes, cid, maxlen, objs, times, qvals, fixed_queries
                     reg2[op[1]][0] = None
                 if op[2] in ("end", "both"):
                     reg2[op[1]][1] = None
+            elif k == "tpremove":
+                reg2 = [list(r) for r in reg]
+                reg2[op[1]][0 if op[2] == "start" else 1] = None
             steps = prefix + [{"op": op, "queries": []}]
             h = dict(base, steps=steps[:-1] + [{"op": op, "queries": fixed_queries}])
-            obs_all, i, msgs, invalid = run_history(h, classes, cid)
-            ctx.evaluations += 1
+            obs_all, i, msgs, invalid = run_history(h, classes, cid, last_only=True)
+            n += 1
             if i is not None:
-                n_bad += 1
-                if n_bad <= 3:
-                    report_oracle_failure(ctx, h, classes, cid, i, msgs)
+                if len(bad) < 3:
+                    bad.append(([s["op"] for s in steps], i, msgs))
+                else:
+                    bad.append(None)
             else:
-                terms.append(cfinal(h, obs_all[-1]))
-                hists.append(h)
-                if any(s["op"][0] == "remove" for s in steps) or sum(s["op"][0] == "setq" for s in steps) >= 2:
-                    ctx.nontrivial(("small", [s["op"] for s in steps]))
+                good.append(([s["op"] for s in steps], cfinal(h, obs_all[-1])))
             if len(steps) < maxlen and i is None:
-                rec(steps, reg2)
+                rec(steps, reg2, ops)
 
-    rec([], [[None, None] for _ in objs])
-    ctx.count("small-scope[%s]: histories" % label, len(terms))
-    ctx.log("small scope %s: %d histories (|ops|=%d, maxlen=%d), oracle failures %d" % (label, len(terms), len(ops), maxlen, n_bad))
-    failing = ctx.coq_failing("small_" + label, IMPORTS, "", terms, "final_ok", shard=4000)
-    ctx.obligation("correspondence: model = implementation on the final state of ALL %d valid histories of length <= %d over "
-                   "%d objects x times %r x quarter values %r" % (len(terms), maxlen, len(objs), times, qvals), not failing, failing[:5])
+    rec([], [[None, None] for _ in base["objs"]], [ops[first]])
+    return good, bad, n
+
+
+def enumerate_small(ctx, classes, cid, maxlen, objs, times, qvals, fixed_queries, label, tpremove=False, coq_every=1):
+    """All histories of length <= maxlen over the given scope: direct oracle on each (the subtrees below the first
+    operation are enumerated by forked workers; the result does not depend on their number), final state of each
+    compared with the models in Coq (every prefix is itself an enumerated history).  coq_every = k > 1: the direct
+    oracle still runs on ALL histories, the Coq comparison on every k-th in enumeration order (the terms of a
+    quarter of a million histories take longer to parse than the tier allows); the obligation says so."""
+    ops = small_scope_ops(len(objs), times, qvals, tpremove)
+    base = {"q0": 1, "objs": objs, "pool": times, "ncls": len(classes), "rel_classes": []}
+    _ENUM.update(ops=ops, base=base, maxlen=maxlen, fq=fixed_queries, classes=classes, cid=cid)
+    results = None
+    if core.NJOBS > 1:
+        try:
+            import multiprocessing
+            with multiprocessing.get_context("fork").Pool(min(core.NJOBS, 8)) as pool:
+                results = pool.map(_enum_subtree, range(len(ops)), chunksize=1)
+        except Exception as e:  # no fork / no semaphores: enumerate in this process
+            ctx.log("small scope %s: parallel enumeration unavailable (%s: %s), running serially" % (label, type(e).__name__, e))
+            results = None
+    if results is None:
+        results = [_enum_subtree(k) for k in range(len(ops))]
+    terms, hist_ops = [], []
+    n_bad = n_good = 0
+    for good, bad, n in results:
+        ctx.evaluations += n
+        for ops_list, term in good:
+            n_good += 1
+            if n_good % coq_every == 0:
+                terms.append(term)
+                hist_ops.append(ops_list)
+            if any(o[0] in ("remove", "tpremove") for o in ops_list) or sum(o[0] == "setq" for o in ops_list) >= 2:
+                ctx.nontrivial(("small", ops_list))
+        for b in bad:
+            n_bad += 1
+            if b is not None and n_bad <= 3:
+                ops_list, i, msgs = b
+                h = dict(base, steps=[{"op": o, "queries": []} for o in ops_list[:-1]] + [{"op": ops_list[-1], "queries": fixed_queries}])
+                report_oracle_failure(ctx, h, classes, cid, i, msgs)
+
+    def hist_of(j):
+        ol = hist_ops[j]
+        return dict(base, steps=[{"op": o, "queries": []} for o in ol[:-1]] + [{"op": ol[-1], "queries": fixed_queries}])
+
+    ctx.count("small-scope[%s]: histories" % label, n_good)
+    ctx.count("small-scope[%s]: histories compared in Coq" % label, len(terms))
+    ctx.log("small scope %s: %d histories (|ops|=%d, maxlen=%d), oracle failures %d, %d compared in Coq" % (label, n_good, len(ops), maxlen, n_bad, len(terms)))
+    ctx.obligation("oracle: the property holds on the real Part after ALL %d valid histories of length <= %d over %d objects x times %r x "
+                   "quarter values %r%s" % (n_good + n_bad, maxlen, len(objs), times, qvals, " incl. TimePoint.remove_*" if tpremove else ""),
+                   n_bad == 0, "%d failing" % n_bad)
+    failing = ctx.coq_failing("small_" + label, IMPORTS, "", terms, FINAL_OK, shard=4000)
+    ctx.obligation("correspondence: models = implementation on the final state of %s %d valid histories of length <= %d over "
+                   "%d objects x times %r x quarter values %r%s" % ("ALL" if coq_every == 1 else "every %d-th (in enumeration order) of the" % coq_every,
+                                                                  len(terms) if coq_every == 1 else n_good, maxlen, len(objs), times, qvals,
+                                                                  " incl. TimePoint.remove_*" if tpremove else ""), not failing, failing[:5])
     for j in failing[:3]:
-        h = hists[j]
+        h = hist_of(j)
         ctx.violation("model and implementation disagree after %s" % json.dumps([s["op"] for s in h["steps"]]),
                       replay_obj(h, len(h["steps"]) - 1, ["correspondence"], run_history(h, classes, cid)[0][-1]))
     return n_bad, failing
@@ -1086,6 +1274,12 @@ def corpus_histories(classes, cid):
                          ["remove", 0, "start"], ["remove", 0, "end"], ["remove", 2, "both"], ["remove", 3, "both"], ["remove", 1, "both"]]),
         # D04: an add that fails on its end time must not register the start
         H([N, M], [["add", 0, 0, 4], ["add", 1, 4, -1], ["add", 1, -1, 4], ["add", 1, 4, 8], ["remove", 0, "both"]]),
+        # TimePoint.remove_*_object leaves the point behind; re-use it, then let Part.remove clean it up
+        H([M, N], [["add", 0, 4, 8], ["tpremove", 0, "start"], ["gpadd", 1, "start", 4], ["remove", 1, "both"],
+                   ["tpremove", 0, "end"], ["add", 0, 8, None], ["remove", 0, "both"], ["tpremove", 0, "start"]]),
+        # the same time used again after its point was cleaned up (a remembered TimePoint would be stale)
+        H([N, M], [["add", 0, 8, None], ["remove", 0, "both"], ["add", 0, 8, 10], ["gp", 8], ["remove", 0, "start"], ["gp", 8],
+                   ["add", 1, 8, 8], ["remove", 1, "both"], ["remove", 0, "both"]]),
     ]
     # every multiply inherited class, queried from above both branches, from one branch and exactly
     shape = tree_shape(classes, cid)
@@ -1138,11 +1332,14 @@ def run(ctx):
                 "<= 8 values incl. 0; weights on: removing the only object of the last/first/an interior point, by start then "
                 "by end and vice versa, start == end, re-setting a quarter duration at an existing change with the previous or a "
                 "new value, out of time order at a point, between points, before the first point, points created later inside a "
-                "span, get_or_add_point, add with one valid and one negative time; queries: iter_all with cls in {None, "
+                "span, get_or_add_point, add with one valid and one negative time, TimePoint.remove_*_object (no clean-up) "
+                "followed by re-use of the emptied point; 28% of the histories hand times over as numpy integers, 10% have "
+                "long timelines (10-15 points); queries: np.searchsorted on the timeline, the six TimePoint comparisons, the "
+                "cached quarter map, iter_all (bounds as int / free TimePoint / the part's own TimePoint) with cls in {None, "
                 "TimedObject, a class above both branches of a registered diamond, a one-branch class, ancestors, any} x "
                 "include_subclasses x mode x windows on/off points, iter_next/iter_prev x eq, first/last, get_point, "
                 "quarter_durations).  After every operation the real Part's observable state and the sampled query results are "
-                "compared with the Coq model and the invariant/specification is evaluated on the real Part (query results as "
+                "compared with the three Coq models (list / index / registry level) and the invariant/specification is evaluated on the real Part (query results as "
                 "lists: every matching registered object exactly once, in time order).  distinct_nontrivial = distinct "
                 "histories containing >= 1 removal that deletes a time point or >= 1 replacement of an existing "
                 "quarter-duration entry.")
@@ -1150,16 +1347,16 @@ def run(ctx):
                    "harness/props/c01.py: class-tree reflector, history runner/dumper, Coq term printer",
                    "Python-side oracle (names the failing step; independent of the Coq model)",
                    "numpy object-array semantics of Part._points (searchsorted/insert/delete with ComparableMixin) are mirrored "
-                   "by list operations in the model, exercised by the correspondence, not verified"]
+                   "by the index-level model (binary search asking only '<'), exercised by the correspondence, not verified"]
     ctx.assumptions = ["an object is registered at most once per side (add of an already registered side is not a valid argument)",
-                       "times are non-negative Python ints; objects are instances of classes of the reflected TimedObject tree",
+                       "times are non-negative integers (Python int or numpy integer); objects are instances of classes of the reflected TimedObject tree",
                        "order of objects within one time point is not part of the property (compared as a multiset per time)",
-                       "a point created by a bare get_or_add_point(t) may be empty until it is used or its time is registered"]
+                       "a point created by a bare get_or_add_point(t), or emptied by TimePoint.remove_*_object (which does no clean-up), may be empty until it is used or its time is registered"]
     classes, cid = gen()
     shape = tree_shape(classes, cid)
     ctx.count("classes reflected", len(classes))
     ctx.count("classes reached along two inheritance paths", len(shape["twice"]))
-    ok, why = ctx.coq_props(expect_min=28)
+    ok, why = ctx.coq_props(expect_min=42)
     if not ok:
         # say which statement about the regenerated class tree fails (if it is one of those)
         named = diagnose_tree(ctx, classes)
@@ -1176,7 +1373,7 @@ def run(ctx):
         ctx.log("directed search over %d iter_subclasses anomalies: %d failing histories" % (len(problems), n))
 
     quick = ctx.tier == "quick"
-    n_hist = 160 if quick else 2000
+    n_hist = 160 if quick else 1000
     hists = corpus_histories(classes, cid)
     for _ in range(n_hist):
         hists.append(gen_history(ctx.rng, classes, cid, shape=shape))
@@ -1197,6 +1394,9 @@ def run(ctx):
             ctx.obligation("generator produces valid histories", False, msgs)
             continue
         ctx.evaluations += len(obs_all)
+        ctx.count("times handed over as:" + h.get("tkind", "int"))
+        mp = max([len(o["points"]) for o in obs_all] or [0])
+        ctx.count("longest timeline:" + ("0-4" if mp < 5 else "5-9" if mp < 10 else "10-15" if mp < 16 else "16+"))
         for s in h["steps"][: len(obs_all)]:
             ctx.count("op:" + (s.get("kind") or s["op"][0]))
             for q in s.get("queries", []):
@@ -1207,6 +1407,7 @@ def run(ctx):
                                                  "above both branches" if c in h.get("joins", []) else
                                                  "one branch" if c in h.get("branches", []) else "other")
                               + (" +subclasses" if q[4] else ""))
+                    ctx.count("iter_all bounds:" + {0: "int", 1: "free TimePoint", 2: "the part's own TimePoint"}[int(q[6])])
         if i is not None:
             n_oracle_bad += 1
             tag = msgs[0][:3] + ("dup" if "more than once" in msgs[0] else "")
@@ -1235,13 +1436,13 @@ def run(ctx):
     model_ok = True
     if not ok:
         # the proofs did not build; the model itself may still evaluate
-        mok, _ = ctx.coq_build(["Model/C01.vo"])
+        mok, _ = ctx.coq_build(MODELS)
         if not mok:
             model_ok = False
             ctx.obligation("correspondence: model evaluates", False, "Model/C01.v does not build over the regenerated class tree")
     if model_ok:
         try:
-            failing = ctx.coq_failing("hist", IMPORTS, "", terms, "history_ok", shard=6 if quick else 20)
+            failing = ctx.coq_failing("hist", IMPORTS, "", terms, HISTORY_OK, shard=6 if quick else 20)
         except RuntimeError as e:
             model_ok = False
             ctx.obligation("correspondence: model evaluates", False, str(e)[-800:])
@@ -1252,12 +1453,17 @@ def run(ctx):
                        "query results equal the real Part's" % (sum(len(o) for _, o in kept), len(terms)), not failing, failing[:5])
     for j in failing[:3]:
         h, obs_all = kept[j]
-        out = ctx.coq_eval(IMPORTS, "match %s with (q0, objs, h) => first_diff objs (init q0) 0 h end" % terms[j])
         import re
-        m = re.search(r"Some\s+\(?(-?\d+)", out)
-        i = int(m.group(1)) if m else len(h["steps"]) - 1
-        ctx.violation("model and implementation disagree after step %d of %s" % (i, json.dumps([s["op"] for s in h["steps"][: i + 1]])),
-                      replay_obj(h, i, ["correspondence: the observation after this step differs from the model"], obs_all[i]))
+        i, which = len(h["steps"]) - 1, []
+        for name, expr in FIRST_DIFFS:
+            out = ctx.coq_eval(IMPORTS, "match %s with (q0, objs, h) => %s end" % (terms[j], expr))
+            m = re.search(r"Some\s+\(?(-?\d+)", out)
+            if m:
+                which.append("%s at step %s" % (name, m.group(1)))
+                i = min(i, int(m.group(1)))
+        ctx.violation("model and implementation disagree after step %d of %s [%s]" % (
+                          i, json.dumps([s["op"] for s in h["steps"][: i + 1]]), "; ".join(which) or "?"),
+                      replay_obj(h, i, ["correspondence: the observation after this step differs from the model: " + "; ".join(which)], obs_all[i]))
 
     if not quick and model_ok:
         names = {c.__name__: i for i, c in enumerate(classes)}
@@ -1266,8 +1472,11 @@ def run(ctx):
             fq = [["iter_all", N, None, None, True, "starting", False], ["iter_all", N, 1, None, False, "ending", True],
                   ["first_last"], ["iter_next", 0, N, False, True], ["iter_prev", 2, names["TimedObject"], False, True],
                   ["iter_all", D, None, 3, True, "starting", False]]
-            enumerate_small(ctx, classes, cid, 3, [N, G, C], [0, 1, 2, 3], [1, 2], fq, "3obj_len3")
-            enumerate_small(ctx, classes, cid, 4, [N, C], [0, 2], [1, 2], fq, "2obj_len4")
+            enumerate_small(ctx, classes, cid, 2, [N, G, C], [0, 1, 2, 3], [1, 2], fq, "3obj_len2")
+            enumerate_small(ctx, classes, cid, 3, [N, G, C], [0, 1, 2, 3], [1, 2], fq, "3obj_len3", coq_every=8)
+            enumerate_small(ctx, classes, cid, 4, [N, C], [0, 2], [1, 2], fq, "2obj_len4", coq_every=8)
+            enumerate_small(ctx, classes, cid, 3, [N, C], [0, 2], [1, 2], fq + [["search", 1], ["cached", 2], ["cmp", 0, 2]],
+                            "2obj_len3_tpremove", tpremove=True)
             ctx.extra["exhaustive"] = "small scopes only (see obligations); the history stream is sampled"
         else:
             ctx.obligation("small-scope enumeration: the classes it is written over exist", False, "")
